@@ -29,7 +29,7 @@ def clNew (ws : List String) : Option Client := do
     pass := ← hexDecode (← g "pass"), capNeg := (← g "capneg") == "1", caps := ← listDecode (← g "caps"),
     sasl := ← saslDecode (← g "sasl"), version := ← hexDecode (← g "version"),
     cmd := ⟨← (← g "split").toInt?, ← hexDecode (← g "quit")⟩ }
-  let c : Client := { cfg := cfg, newNick := ← newNickDecode (← g "newnick"), ext := extOf [] }
+  let c : Client := { cfg := clientConfig cfg, newNick := ← newNickDecode (← g "newnick"), ext := extOf [] }
   pure (if (← g "track") == "1" then enableTracking c else c)
 
 def encCaps (m : List (Bytes × Bool)) : String :=
